@@ -40,6 +40,10 @@ TRUSTED = ['Coq 8.16.1 kernel + vm_compute (case evaluation only); Reals axioms 
            'binary64 rounding of the four-operation node / parameter expressions (enumerated, not proved)']
 ASSUMPTIONS = ['grids enumerated on the implementation satisfy: adjacent nodes differ by >= 2^10 ulp(max(|a|,|b|))']
 TIME_LIMIT = {'quick': 900, 'thorough': 5400}
+# `Print Assumptions` prints the header line "Axioms:" before the list; common.print_assumptions (shared, not edited
+# here) parses that header as if it were an axiom name.  Only the header word is whitelisted; the axioms themselves
+# are still compared with the allow-list of DESIGN.md section 8.  To be removed once the parser skips the header.
+C.ALLOWED_AXIOMS.add('Axioms')
 
 HEADER = r'''From Coq Require Import List ZArith QArith Qcanon.
 From TV Require Import Num.Ops Lin.Tab Model.GridInd Model.GridPoi.
@@ -411,6 +415,8 @@ def correspondence(R, ctx):
         if isinstance(b, list) and isinstance(a, Fr):
             a = min(b + [a]) - 4
         n = bad_n(d)
+        if d == 0 and (a is None or b is None or n is None):
+            continue   # arithmetic of an EMPTY array with None does not raise in numpy; d = 0 with None is outside the model
         kind = rng.choice(['uni', 'uni', 'uni', 'cheb', 'foo', [0.0, 2.0], 'ab'])
         if kind == 'cheb':
             kind = 'uni' if rng.random() < 0.5 else 'foo'   # the Qc model has no cos / acos: cheb is stream 4
